@@ -31,6 +31,27 @@ SPECS = [
         serves=['C13'],
     ),
     dict(
+        id='S-OnError-static-body',
+        # the guarded element evaluates nothing itself: the failure comes from behind a call (an
+        # in-template macro).  It is guarded all the same.
+        text='A<div class="c" tal:on-error="e11"><m metal:define-macro="m">%s</m></div>B' % H1,
+        own_names=['error'],
+        ensures=[
+            "ext_count() == 1",
+            "ext_raised(0) or (S() == S0() + 'A<div class=\"c\">' + ext_out(0) + '</div>B' "
+            "and handler_calls() == 0 and evals(11) == 0)",
+            "not ext_raised(0) or (S() == S0() + 'A<div class=\"c\">' "
+            "+ ('' if quoted(val(11), None, '\\xad', None, None) is None "
+            "   else piece(quoted(val(11), None, '\\xad', None, None))) + '</div>B')",
+            "not ext_raised(0) or (exc_is_exception() and evals(11) == 1)",
+            "not ext_raised(0) or handler_calls() == (1 if handler_configured() else 0)",
+        ],
+        raises={'*': {'ensures': [
+            "(ext_raised(0) and not exc_is_exception()) or raised('e11')",
+        ]}},
+        serves=['C13'], no_fresh=True,
+    ),
+    dict(
         id='S-OnError-in-translate',
         # the element's output goes to whatever stream is current: inside a translation block
         # that is the block's sub-stream, and the discard must cut exactly that one
